@@ -522,6 +522,9 @@ func ProxyInheritDoc(k int) map[string]interface{} {
 		return []interface{}{map[string]interface{}{"url": "http://127.0.0.1:" + strconv.Itoa(port)}}
 	}
 	main := map[string]interface{}{"servers": srv(9095), "loadBalance": map[string]interface{}{"policy": "roundRobin"}}
+	// server URL shapes in rotation (validation accepts whatever url.Parse accepts)
+	main["servers"] = []interface{}{map[string]interface{}{"url": URLShapes[k%len(URLShapes)]},
+		map[string]interface{}{"url": URLShapes[(k/len(URLShapes)+7)%len(URLShapes)], "keepHost": k%2 == 0}}
 	cand := map[string]interface{}{"servers": srv(9097), "filter": map[string]interface{}{"headers": map[string]interface{}{
 		"X-Test": map[string]interface{}{"exact": "a"}}}}
 	if pv != nil {
